@@ -20,4 +20,28 @@ PROPS = {
                 gates=[("hist_keys_min", "ordered_pair", 25), ("nontrivial_min", 50)],
                 assumptions=["value tolerance = 2^13 * u * (1+rho) * G * max(1,|t|,|1-t|)^3 (DESIGN 2.4)",
                              "reference spline: exact moment formulation, sparse Gaussian elimination"]),
+    "C04": dict(bin="c04", oracle=True,
+                legs={"quick": [N], "thorough": [N]},
+                gates=[("counter_min", "transpose_compared", 1000), ("counter_min", "grid_line_compared", 200),
+                       ("hist_keys_min", "entry", 3), ("nontrivial_min", 100)],
+                assumptions=["blend tolerance 64*2^-52*Z (three nested two-point formulas: <= ~35u*Z), "
+                             "grid line 80, transpose 128"]),
+    "C06": dict(bin="c06", oracle=True,
+                legs={"quick": [N], "thorough": [N]},
+                gates=[("counter_min", "inrange_compared", 1000), ("counter_min", "outside_answered", 1000),
+                       ("hist_keys_min", "strategy", 3), ("hist_keys_min", "outside_in", 3)],
+                assumptions=["outside tolerances: line 16*2^-52*Y*(1+2|t|), spline tol*max(1,|t|,|1-t|)^3, "
+                             "bilinear 64*2^-52*Z*(1+2|tx|)(1+2|ty|)"]),
+    "C07": dict(bin="c07", oracle=True,
+                legs={"quick": [N], "thorough": [N]},
+                gates=[("hist_keys_min", "n_class", 3), ("hist_keys_min", "uniform", 2),
+                       ("hist_keys_min", "x0_sign", 2)],
+                assumptions=["bound = spline tolerance + L*delta, L exact bound of |S'|, "
+                             "delta = 4u(|q|+|x0|+P) (rounding of the wrapped argument)"]),
+    "C16": dict(bin="c16", oracle=True,
+                legs={"quick": [N], "thorough": [N, ("o0", 0.25)]},
+                gates=[("hist_keys_min", "strategy", 3), ("hist_keys_min", "boundary", 4),
+                       ("hist_keys_min", "extrapolate", 2), ("nontrivial_min", 100)],
+                assumptions=["data are exactly p(x_i) (integer arithmetic in the driver)",
+                             "tolerances as C01 / C03 / C04"]),
 }
